@@ -97,7 +97,7 @@ def observe(spec: Dict[str, Any], dispatcher: Any = None, text: Optional[str] = 
             obs.parse_error = f"response text is {type(obs.text).__name__}"
             return obs
         try:
-            obs.doc = json.loads(obs.text, parse_constant=_reject_constant)
+            obs.doc = json.loads(obs.text)     # lenient about NaN / Infinity inside payloads (a method may echo a request's overflowing float)
         except ValueError as e:
             obs.parse_error = f"response text is not JSON: {e}: {obs.text[:200]!r}"
     return obs
